@@ -469,9 +469,17 @@ func (in *inst) reopen() (bool, error) {
 			maxVer, maxAt = e.ver, where[mkey{e.key, e.ver}]
 		}
 	}
+	// point read of every stored version right before the close (differential reference)
+	pointBefore := in.pointReads(before)
 	if err := in.h.Reopen(); err != nil {
 		in.fail("reopen-failed", "clean close + open failed: %v", err)
 		return true, nil
+	}
+	for k, b := range pointBefore {
+		if a := in.pointRead(k.key, k.ver); a != b {
+			in.fail("reopen-changed-point-read was-in="+where[k], "GetVersionedEntry(%q,%d) = %s before the close and %s after reopen", k.key, k.ver, b, a)
+			break
+		}
 	}
 	after, fault := in.scan()
 	if fault != "" {
@@ -506,6 +514,29 @@ func (in *inst) reopen() (bool, error) {
 		}
 	}
 	return true, nil
+}
+
+// pointRead asks for exactly one stored version through the point-read API and renders the answer.
+func (in *inst) pointRead(key string, ver uint64) string {
+	e, err := in.h.DB.GetVersionedEntry(kv.CFDefault, []byte(key), ver)
+	switch {
+	case errors.Is(err, utils.ErrKeyNotFound):
+		return "notfound"
+	case err != nil:
+		return "error:" + err.Error()
+	}
+	return fmt.Sprintf("meta=%d exp=%d val=%q", e.Meta&kv.BitDelete, e.ExpiresAt, e.Value)
+}
+
+func (in *inst) pointReads(es []entry) map[mkey]string {
+	out := map[mkey]string{}
+	if in.p.Plain {
+		return out
+	}
+	for _, e := range es {
+		out[mkey{e.key, e.ver}] = in.pointRead(e.key, e.ver)
+	}
+	return out
 }
 
 // Check: the stored versions equal the model (absolute oracle), and point reads through a
@@ -718,6 +749,8 @@ func configs(quick bool) []config {
 	txnCore := []string{"t:a:v", "t:a:d", "vs:a:V", "t2"}
 	txnWide := []string{"t:a:v", "t:a:V", "t:a:d", "t:ab:f", "t:a:x", "t2", "vs:a:V", "vs:ab:v", "vd:a"}
 	plain := []string{"p:a:v", "p:a:V", "p:a:d", "p:ab:f", "p:ab:x"}
+	// the manifest is rewritten on every edit: the reopened catalog comes from a rewrite snapshot
+	rewrite := dbh.Config{Engine: "skiplist", DetectConflicts: true, ManifestRewrite: 1}
 	if quick {
 		am := map[string]bool{"rf": true, "l0-base": true, "ingest-drain": true}
 		return []config{
@@ -725,6 +758,7 @@ func configs(quick bool) []config {
 			{params{Name: "txn-wide-art", Cfg: art, ClientOps: txnWide, MaxClient: 2, MaxMaint: 1, MaxReopen: 1, MaintAllow: am, Macro: true}, 4},
 			{params{Name: "plain", Cfg: small, ClientOps: plain, MaxClient: 2, MaxMaint: 2, MaxReopen: 1, Plain: true, MaintAllow: am, Macro: true}, 4},
 			{params{Name: "txn-3reopen", Cfg: small, ClientOps: []string{"t:a:v"}, MaxClient: 3, MaxMaint: 0, MaxReopen: 3, MaintAllow: am, Macro: true}, 6},
+			{params{Name: "txn-manifest-rewrite", Cfg: rewrite, ClientOps: []string{"t:a:v", "t:ab:f"}, MaxClient: 2, MaxMaint: 4, MaxReopen: 1, MaintAllow: am, Macro: true}, 7},
 		}
 	}
 	am := map[string]bool{"rf": true, "l0-base": true, "ingest-drain": true}
@@ -734,6 +768,7 @@ func configs(quick bool) []config {
 		{params{Name: "txn-wide-art", Cfg: art, ClientOps: txnWide, MaxClient: 2, MaxMaint: 2, MaxReopen: 2, MaintAllow: am, Macro: true}, 5},
 		{params{Name: "plain", Cfg: small, ClientOps: plain, MaxClient: 3, MaxMaint: 3, MaxReopen: 2, Plain: true, MaintAllow: allow}, 7},
 		{params{Name: "plain-art", Cfg: art, ClientOps: plain, MaxClient: 2, MaxMaint: 2, MaxReopen: 2, Plain: true, MaintAllow: am, Macro: true}, 5},
+		{params{Name: "txn-manifest-rewrite", Cfg: rewrite, ClientOps: txnCore, MaxClient: 3, MaxMaint: 5, MaxReopen: 2, MaintAllow: am, Macro: true}, 9},
 	}
 }
 
